@@ -150,11 +150,11 @@ func TestHistories(t *testing.T) {
 				shared++
 			case a == 2:
 				s.Action = "touch"
-				s.Op = rapid.SampledFrom(hist.Ops(c.Pool[s.Spec])).Draw(t, "op")
+				s.Op = rapid.SampledFrom(hist.OpsSequential(c.Pool[s.Spec])).Draw(t, "op")
 			default:
 				s.Action = "op"
 				s.Obj = rapid.IntRange(0, 3).Draw(t, "obj")
-				s.Op = rapid.SampledFrom(hist.Ops(c.Pool[s.Spec])).Draw(t, "op")
+				s.Op = rapid.SampledFrom(hist.OpsSequential(c.Pool[s.Spec])).Draw(t, "op")
 				k := fmt.Sprintf("%d/%s", s.Spec, s.Op)
 				if seen[k] {
 					repeats++
